@@ -157,7 +157,7 @@ def generate(tier):
             body += "    if false { let _ = %s; }\n" % call.replace("f(", "f(").replace(")", ")")
             for k in ks:
                 body += "    kani::assume(!(%s));\n" % k["class"]
-        body += "    let r = %s;\n    mem::forget(r);\n" % call
+        body += "    let r = %s;\n    mem::forget(r);\n    kani::cover!(true); // vacuity guard\n" % call
         attrs = "#[kani::proof]\n#[kani::stub(alloc::fmt::format, stub_format)]\n"
         if n == "pow":
             attrs += "#[kani::unwind(34)]\n"
